@@ -722,3 +722,47 @@ def r8_one_shot_iterables_not_kept(ctx) -> None:
         ctx.floor("R8", 99)
     else:
         ctx.ok("R8", f"{n} parameters kept as they are, {n_sites} call sites: none is declared or passed as a one-shot iterable")
+
+
+def r9_back_references_left_out_by_name(ctx) -> None:
+    """A rule database keeps a link back to its searcher (set by link_searcher).  An __eq__
+    that compares instance dictionaries leaves the link out *by name*, in a string: the name in
+    the string and the name of the attribute are two spellings of one fact.  After a rename of
+    the attribute the string filters nothing, and comparing two databases compares their
+    searchers, which compare their databases, without end."""
+    P = ctx.P
+    n = 0
+    for cls in P.classes.values():
+        lk = P.find_method(cls, "link_searcher")
+        if lk is None or lk.cls is None:
+            continue
+        # attributes that take a parameter of link_searcher as it is
+        lps = set(lk.params()[1:])
+        backrefs = {t.attr for st in walk_local(lk.node) if isinstance(st, (ast.Assign, ast.AnnAssign)) and getattr(st, "value", None) is not None
+                    and isinstance(st.value, ast.Name) and st.value.id in lps
+                    for t in (st.targets if isinstance(st, ast.Assign) else [st.target]) if is_self_attr(t)}
+        holds_searcher = {a for a in backrefs if any("searcher" in p_ or "css" in p_ for p_ in lps)}
+        eqm = P.find_method(cls, "__eq__")
+        if eqm is None or not holds_searcher:
+            continue
+        t = norm(eqm.node)
+        if "__dict__" not in t and "vars(" not in t:
+            continue
+        n += 1
+        strings = {x.value for x in ast.walk(eqm.node) if isinstance(x, ast.Constant) and isinstance(x.value, str) and x.value.isidentifier()}
+        known = set()
+        for k in P.mro(cls) + P.subclasses(cls, strict=True):
+            known |= set(P.attr_assignments(k))
+        for a in sorted(holds_searcher):
+            if a in strings:
+                ctx.ok("R9", f"{eqm.qualname} leaves the back-reference `{a}` of {cls.name} out of the comparison")
+            else:
+                ctx.violation("R9", eqm.node, f"{eqm.qualname} compares instance dictionaries and does not leave out `{a}`, the link to the searcher that {lk.qualname} sets "
+                              f"(it names {sorted(strings) or 'nothing'}): comparing two {cls.name} objects compares their searchers, which compare their databases -- no end",
+                              construct=f"{eqm.qualname} compares back-reference {a}")
+        for s_ in sorted(strings - known):
+            if s_.startswith("_"):
+                ctx.violation("R9", eqm.node, f"{eqm.qualname} filters the name '{s_}', which is not an attribute any {cls.name} has: the attribute it was meant for is compared",
+                              construct=f"{eqm.qualname} stale name {s_}")
+    if n < 1:
+        ctx.floor("R9", 99)
